@@ -153,7 +153,28 @@ func (c *Ctx) mapRangeVerdict(u FuncUnit, rs *ast.RangeStmt) (bool, string) {
 				if ie, ok := l.(*ast.IndexExpr); ok {
 					if tv, ok := info.Types[ie.X]; ok {
 						if _, isMap := tv.Type.Underlying().(*types.Map); isMap {
-							continue
+							// distinct slot per iteration (indexed by the range key), a
+							// constant, or a commutative numeric update: order-free.
+							// Otherwise two elements may hit one slot and the last writer
+							// (or the order of an append) depends on map order.
+							if keyObj != nil && identObj(info, ie.Index) == keyObj {
+								continue
+							}
+							if len(x.Rhs) == len(x.Lhs) && isConstExpr(x.Rhs[i]) {
+								continue
+							}
+							if x.Tok != token.ASSIGN && x.Tok != token.DEFINE {
+								if tvl, ok := info.Types[l]; ok {
+									if b, ok := tvl.Type.Underlying().(*types.Basic); ok && b.Info()&types.IsNumeric != 0 {
+										continue
+									}
+								}
+							}
+							if len(x.Rhs) == len(x.Lhs) && sameSlotOnly(info, x.Rhs[i], ie) {
+								continue
+							}
+							why = "stores into map slot `" + types.ExprString(l) + "`, which is not indexed by the range key: when two elements share a slot the result (last writer / append order) depends on map order"
+							return false
 						}
 						// slice element indexed by a counter, slice sorted later
 						if o := identObj(info, ie.X); o != nil && sortedLater[o] {
@@ -201,6 +222,17 @@ func (c *Ctx) mapRangeVerdict(u FuncUnit, rs *ast.RangeStmt) (bool, string) {
 						return true
 					}
 				}
+				// per-key normalisation: sort.X(m[key]) / sort.X(value)
+				if fn := Callee(info, ce); fn != nil && fn.Pkg() != nil && (fn.Pkg().Path() == "sort" || fn.Pkg().Path() == "slices") && len(ce.Args) >= 1 {
+					a0 := ast.Unparen(ce.Args[0])
+					if valObj := identObj(info, rs.Value); valObj != nil && identObj(info, a0) == valObj {
+						return true
+					}
+					if ie, ok := a0.(*ast.IndexExpr); ok && keyObj != nil && identObj(info, ie.Index) == keyObj &&
+						types.ExprString(ie.X) == types.ExprString(rs.X) {
+						return true
+					}
+				}
 				// method call on a set-like receiver (Add, Insert, mark...) — treated as commutative only for
 				// the local closures / methods listed by the auditor; otherwise undecided
 				why = "calls `" + types.ExprString(ce.Fun) + "` once per element in iteration order (effect order may be observable)"
@@ -221,6 +253,15 @@ func (c *Ctx) mapRangeVerdict(u FuncUnit, rs *ast.RangeStmt) (bool, string) {
 		return true, "body only stores into maps, counts, sets flags, fills slices sorted afterwards or selects a minimum by key"
 	}
 	return false, why
+}
+
+// sameSlotOnly: rhs is `append(slot, <anything>)` used as a set-union into a
+// slot … is NOT order-free; the only accepted non-key shape is copying a
+// value whose own identity is the slot index (m[v.Name] = v with v the range
+// value is still last-writer-wins), so this returns false except for the
+// idempotent `m[k2] = m[k2]`-style self assignment.
+func sameSlotOnly(info *types.Info, rhs ast.Expr, slot *ast.IndexExpr) bool {
+	return types.ExprString(ast.Unparen(rhs)) == types.ExprString(slot)
 }
 
 func (c *Ctx) mapRangeObligations(rule string, keep func(string) bool) []Obligation {
@@ -330,8 +371,10 @@ func init() {
 		Run: func(c *Ctx) []Obligation { return c.mapRangeObligations("DET.map-range", isKernel) }})
 
 	register(&Rule{ID: "DET.map-range-tooling", Floor: 10,
-		Doc: "every range over a Go map in minifier, analysis, formatter and lint has an order-insensitive body or is audited",
-		Run: func(c *Ctx) []Obligation { return c.mapRangeObligations("DET.map-range-tooling", isTooling) }})
+		Doc: "every range over a Go map in the code that produces minified text and its symbol map (minifier, analysis, formatter and their internal helpers) has an order-insensitive body or is audited",
+		Run: func(c *Ctx) []Obligation {
+			return c.mapRangeObligations("DET.map-range-tooling", func(p string) bool { return isTooling(p) && rel(p) != "lint" })
+		}})
 
 	register(&Rule{ID: "DET.ptr-format", Floor: 1,
 		Doc: "no format call in the kernel, formatter or minifier applies %p, or %v/%+v/%s/%d to an operand whose static type renders an address (pointer without String/Error/Format, chan, func, uintptr, reflect.Value), and none applies %#v (which bypasses Stringers) to a pointer-bearing operand",
